@@ -187,6 +187,79 @@ func runC09(c *core.Ctx) {
 		c.Check(routeK, name+"#AssembleKey-route", p.Pos(key.Pos()), "can reject a repeated key", "no construction of ErrRepeatedMapKey is reachable from the key assembler, AssembleValue or Finish: a key supplied twice through AssembleKey/AssembleValue is silently accepted")
 	}
 
+	// ... and where the rejection hangs on a look-up of the key in the assembler's index (a comma-ok map read), that
+	// look-up is made for every key: no way to a successful return goes around it
+	for _, fn := range p.ModFns {
+		pk := core.FuncPkg(fn)
+		if pk == nil || !libraryPkg(core.RelPkg(pk.Path())) || len(fn.Blocks) == 0 || fn.Synthetic != "" {
+			continue
+		}
+		if !constructs(map[*ssa.Function]bool{fn: true}, "datamodel", "ErrRepeatedMapKey") {
+			continue
+		}
+		// the construction's block and the comma-ok look-ups whose outcome guards it
+		var lookups []*ssa.Lookup
+		core.Instrs(fn, func(in ssa.Instruction) {
+			var t types.Type
+			switch x := in.(type) {
+			case *ssa.MakeInterface:
+				t = x.X.Type()
+			case *ssa.Alloc:
+				t = x.Type().(*types.Pointer).Elem()
+			default:
+				return
+			}
+			if nt := namedOfType(t); nt == nil || nt.Obj().Name() != "ErrRepeatedMapKey" {
+				return
+			}
+			for _, e := range core.IfEdges(fn) {
+				if e.From.Parent() != fn || !core.EdgeDominates(e, in.Block()) {
+					continue
+				}
+				ifi := core.BlockIf(e.From)
+				for w := range core.BackSlice(ifi.Cond, core.SliceOpts{Local: true}) {
+					ex, ok := w.(*ssa.Extract)
+					if !ok || ex.Index != 1 {
+						continue
+					}
+					if lk, ok := ex.Tuple.(*ssa.Lookup); ok && lk.CommaOk {
+						dup := false
+						for _, o := range lookups {
+							dup = dup || o == lk
+						}
+						if !dup {
+							lookups = append(lookups, lk)
+						}
+					}
+				}
+			}
+		})
+		if len(lookups) == 0 {
+			continue // the rejection is decided some other way (a scan of the keys so far): not an instance
+		}
+		errIdx := core.ErrResultIndex(fn)
+		isLookup := func(in ssa.Instruction) bool {
+			for _, lk := range lookups {
+				if in == ssa.Instruction(lk) {
+					return true
+				}
+			}
+			return false
+		}
+		bad := false
+		var wp []string
+		pos := fn.Pos()
+		for _, ret := range core.Returns(fn) {
+			if errIdx >= 0 && core.ResultNilness(ret, errIdx) == core.NonNil {
+				continue
+			}
+			if path, reached := core.Reach(fn, nil, successReturn(ret, errIdx), nil, isLookup); reached {
+				bad, wp, pos = true, p.Witness(path), ret.Pos()
+			}
+		}
+		c.Check(!bad, core.FuncKey(fn)+"#repeat-lookup-on-every-path", p.Pos(pos), "every key is looked up in the index before it is accepted", "a key can be accepted (the function returns without error) on a path that does not look it up in the assembler's index: a shortcut decides from something else (order of arrival, a flag kept by another entry point) that the key is new, and a repeated key supplied by the route that does not keep that something up to date is accepted", wp...)
+	}
+
 	c.Rule("C09.unionone", "every union MapAssembler can refuse a second entry: from AssembleValue/AssembleEntry (or the key assembler) a construction of ErrNotUnionStructure is reachable that is guarded by the assembler's own already-set state (a test of the member index / state field dominates it), not only by the member-name lookup", 2)
 	for _, im := range unions {
 		name := core.RelPkg(im.Named.Obj().Pkg().Path()) + "." + im.Named.Obj().Name()
@@ -286,6 +359,87 @@ func runC09(c *core.Ctx) {
 		c.Check(ok, name+"#Finish-required", p.Pos(fin.Pos()), "Finish can report missing required fields", "Finish of a struct assembler cannot report ErrMissingRequiredField: a struct missing required fields is built silently")
 	}
 
+	c.Rule("C09.arity", "a list assembler that counts the values it hands out in a field of its own and refuses them beyond a constant number (an entry of fixed arity, such as the [key, value] pair of a listpairs struct) also refuses to finish below that number: its Finish compares the same counter and can return an error - otherwise an incomplete entry is accepted and vanishes", 1)
+	for _, im := range p.Implementers(laIface, libraryPkg) {
+		valf := p.Method(im.Type(), "AssembleValue")
+		fin := p.Method(im.Type(), "Finish")
+		if valf == nil || fin == nil || len(valf.Blocks) == 0 || len(fin.Blocks) == 0 {
+			continue
+		}
+		// the counter: an integer field of the receiver that AssembleValue increments and compares with constants
+		incremented := map[core.FieldID]bool{}
+		core.Instrs(valf, func(in ssa.Instruction) {
+			st, ok := in.(*ssa.Store)
+			if !ok {
+				return
+			}
+			fid, _, ok := core.FieldOfAddr(st.Addr)
+			if !ok {
+				return
+			}
+			if bo, ok := st.Val.(*ssa.BinOp); ok && bo.Op == token.ADD {
+				if lf, _, ok := core.FieldOfLoad(bo.X); ok && lf == fid {
+					if k, isK := core.ConstInt(bo.Y); isK && k == 1 {
+						incremented[fid] = true
+					}
+				}
+			}
+		})
+		if len(incremented) == 0 {
+			continue
+		}
+		comparesCounter := func(fn *ssa.Function) map[core.Edge]bool {
+			return core.EdgesWhere(fn, func(r core.Rel) bool {
+				lf, _, ok := core.FieldOfLoad(core.Strip(r.X))
+				if !ok || !incremented[lf] {
+					return false
+				}
+				_, isK := core.ConstInt(r.Y)
+				return isK
+			})
+		}
+		if len(comparesCounter(valf)) == 0 {
+			continue // the counter is not bounded by a constant here (a tuple counts against the number of fields)
+		}
+		name := core.RelPkg(im.Named.Obj().Pkg().Path()) + "." + im.Named.Obj().Name()
+		errIdx := core.ErrResultIndex(fin)
+		canFail := false
+		for _, ret := range core.Returns(fin) {
+			if errIdx >= 0 && core.ResultNilness(ret, errIdx) == core.NonNil {
+				for e := range comparesCounter(fin) {
+					if core.EdgeDominates(e, ret.Block()) {
+						canFail = true
+					}
+				}
+			}
+		}
+		c.Check(canFail, name+"#Finish-lower-bound", p.Pos(fin.Pos()), "Finish refuses an entry with too few values", "AssembleValue counts the values of the entry and refuses them beyond a constant number, but Finish never looks at the counter: an entry with fewer values than the representation requires (a listpairs pair with only a key, or empty) is accepted and silently dropped")
+	}
+
+	c.Rule("C09.enummember", "enum members valid at both levels: every AssignString of a reflection assembler of bindnode that can write the string into the bound Go value (reflect.Value.SetString in its region) consults (*schema.TypeEnum).Members on the way - the type-level assembler (which also serves the keys of maps keyed by an enum) as well as the representation-level one", 1)
+	if naIface := p.Iface("datamodel", "NodeAssembler"); naIface != nil {
+		for _, im := range p.Implementers(naIface, func(rel string) bool { return rel == "node/bindnode" }) {
+			fn := p.Method(im.Type(), "AssignString")
+			if fn == nil || len(fn.Blocks) == 0 {
+				continue
+			}
+			writes, consults := false, false
+			for _, ci := range core.CallsR(fn) {
+				if core.IsMethod(ci, "reflect", "Value", "SetString") {
+					writes = true
+				}
+				if core.IsMethod(ci, core.ModPath+"/schema", "TypeEnum", "Members") {
+					consults = true
+				}
+			}
+			if !writes {
+				continue
+			}
+			name := core.RelPkg(im.Named.Obj().Pkg().Path()) + "." + im.Named.Obj().Name()
+			c.Check(consults, name+"#AssignString-enum-members", p.Pos(fn.Pos()), "the members of an enum are consulted before a string is stored", "AssignString stores the string into the bound Go value and never consults the members of an enum type: a string that is not a member is accepted (at the type level, as a struct field or as a map key) and the node cannot be read back at the representation level")
+		}
+	}
+
 	c.Rule("C09.splitexact", "a stringjoin struct is taken apart without a limit on the number of parts: where bindnode splits the representation string by the strategy's delimiter (GetDelim) it uses strings.Split (or SplitN with a negative count), so that the comparison of the number of parts with the number of fields sees surplus components and rejects them", 1)
 	{
 		nsp := 0
@@ -326,6 +480,335 @@ func runC09(c *core.Ctx) {
 		}
 		if nsp == 0 {
 			c.Undecided("node/bindnode#stringjoin-split", "-", "no split of a representation string by the strategy's delimiter found")
+		}
+	}
+
+	c.Rule("C09.materialised", "the slot of a reflection assembler may be a pointer (an optional or nullable position, an element of a list of nullable values) until its materialiser has run: in the methods (and closures) of every bindnode assembler type that has a materialiser - and of every type with the identical struct, which is the same assembler seen at representation level - no reflect.Value method that panics on a pointer (Field, FieldByIndex, FieldByName, NumField, Index, Len, MapIndex, MapKeys, SetMapIndex, the scalar getters and setters) is applied to a direct read of the assembler's reflect.Value field, nor is that read handed to a function of the package that applies one to its parameter: conforming data in such a position is accepted, not answered with a reflect panic", 6)
+	{
+		panicsOnPtr := map[string]bool{"Field": true, "FieldByIndex": true, "FieldByName": true, "NumField": true, "Index": true, "Len": true, "Cap": true, "MapIndex": true, "MapKeys": true, "MapRange": true, "SetMapIndex": true, "Bool": true, "Int": true, "Uint": true, "Float": true, "Bytes": true, "SetBool": true, "SetInt": true, "SetUint": true, "SetFloat": true, "SetString": true, "SetBytes": true, "SetLen": true, "Slice": true}
+		isReflectValue := func(t types.Type) bool {
+			nt := namedOfType(t)
+			return nt != nil && nt.Obj().Pkg() != nil && nt.Obj().Pkg().Path() == "reflect" && nt.Obj().Name() == "Value"
+		}
+		// assembler types with a materialiser, and the types sharing their struct
+		var slotTypes []*types.Named
+		var materialisers []*types.Named
+		all := p.ModuleTypes(func(rel string) bool { return rel == "node/bindnode" })
+		for _, nt := range all {
+			ms := p.SSA.MethodSets.MethodSet(types.NewPointer(nt))
+			for i := 0; i < ms.Len(); i++ {
+				f, ok := ms.At(i).Obj().(*types.Func)
+				if !ok {
+					continue
+				}
+				sig := f.Type().(*types.Signature)
+				if sig.Params().Len() == 0 && sig.Results().Len() == 1 && isReflectValue(sig.Results().At(0).Type()) && assemblerRole(p, nt) {
+					materialisers = append(materialisers, nt)
+					break
+				}
+			}
+		}
+		for _, nt := range all {
+			for _, m := range materialisers {
+				if nt == m || types.Identical(nt.Underlying(), m.Underlying()) {
+					slotTypes = append(slotTypes, nt)
+					break
+				}
+			}
+		}
+		isSlotType := func(t types.Type) bool {
+			if pt, ok := t.(*types.Pointer); ok {
+				t = pt.Elem()
+			}
+			nt := namedOfType(t)
+			for _, st := range slotTypes {
+				if nt == st {
+					return true
+				}
+			}
+			return false
+		}
+		// usesRaw: fn applies a pointer-intolerant reflect method directly to its parameter idx
+		usesRaw := func(g *ssa.Function, idx int) string {
+			if g == nil || len(g.Blocks) == 0 || idx >= len(g.Params) {
+				return ""
+			}
+			found := ""
+			for _, ci := range core.Calls(g) {
+				o := core.CalleeObj(ci)
+				if o == nil || !panicsOnPtr[o.Name()] || !core.IsMethod(ci, "reflect", "Value", o.Name()) {
+					continue
+				}
+				if core.Strip(core.Receiver(ci)) == ssa.Value(g.Params[idx]) {
+					found = o.Name()
+				}
+			}
+			return found
+		}
+		nslot := 0
+		for _, fn := range p.ModFns {
+			pk := core.FuncPkg(fn)
+			if pk == nil || core.RelPkg(pk.Path()) != "node/bindnode" || len(fn.Blocks) == 0 || fn.Synthetic != "" {
+				continue
+			}
+			top := fn
+			for top.Parent() != nil {
+				top = top.Parent()
+			}
+			if top.Signature.Recv() == nil || !isSlotType(top.Signature.Recv().Type()) {
+				continue
+			}
+			// a direct read of the reflect.Value field of a slot-typed object (the receiver, or the captured receiver)
+			isRawSlot1 := func(v ssa.Value) bool {
+				u, ok := core.Strip(v).(*ssa.UnOp)
+				if !ok || u.Op != token.MUL {
+					return false
+				}
+				fa, ok := u.X.(*ssa.FieldAddr)
+				if !ok || !isReflectValueField(fa) {
+					return false
+				}
+				return isSlotType(fa.X.Type())
+			}
+			// ... also when it was first put into a local (a variable a closure captures lives in memory)
+			isRawSlot := func(v ssa.Value) bool {
+				if isRawSlot1(v) {
+					return true
+				}
+				if u, ok := core.Strip(v).(*ssa.UnOp); ok && u.Op == token.MUL {
+					if _, isAlloc := u.X.(*ssa.Alloc); isAlloc {
+						for w := range core.BackSlice(v, core.SliceOpts{Local: true, Stores: true}) {
+							if isRawSlot1(w) {
+								return true
+							}
+						}
+					}
+				}
+				return false
+			}
+			n := 0
+			bad := ""
+			var pos token.Pos
+			for _, ci := range core.Calls(fn) {
+				o := core.CalleeObj(ci)
+				if o != nil && panicsOnPtr[o.Name()] && core.IsMethod(ci, "reflect", "Value", o.Name()) {
+					n++
+					if isRawSlot(core.Receiver(ci)) {
+						bad, pos = "reflect.Value."+o.Name()+" is applied to the assembler's slot as it is", ci.Pos()
+					}
+					continue
+				}
+				if cal := ci.Common().StaticCallee(); cal != nil && core.FuncPkg(cal) == pk && cal.Signature.Recv() == nil {
+					for j, a := range ci.Common().Args {
+						if isRawSlot(a) {
+							if m := usesRaw(cal, j); m != "" {
+								bad, pos = "the assembler's slot is handed as it is to "+cal.Name()+", which applies reflect.Value."+m+" to it", ci.Pos()
+							}
+						}
+					}
+				}
+			}
+			if n == 0 && bad == "" {
+				continue
+			}
+			nslot++
+			if !pos.IsValid() {
+				pos = fn.Pos()
+			}
+			c.Check(bad == "", core.FuncKey(fn)+"#slot-materialised", p.Pos(pos), "reflect accessors are applied to the materialised value", bad+": when the position is optional or nullable (a pointer that is still nil) this panics inside package reflect on data that conforms to the schema")
+		}
+		if nslot == 0 {
+			c.Undecided("node/bindnode#slot-assemblers", "-", "no method of a slot assembler applies reflect accessors (the reflection assembler and its representation view were expected)")
+		}
+	}
+
+	c.Rule("C09.reversekey", "a representation key is not a type-level name: in the functions of bindnode that map an incoming representation key back to a field or member name (they take a *schema.TypeStruct / *schema.TypeUnion and the key, ask the strategy for every field's key / member's discriminant, and return a name), the key itself is returned unchanged only where it has been found NOT to be the type-level name of a field or member (behind the nil edge of TypeStruct.Field(key), or with no path from a successful comparison with a member's Name()) - otherwise input that uses the type-level name of a renamed field is accepted although it does not conform, where generated code rejects it", 2)
+	{
+		nrk := 0
+		roleHelper := map[*ssa.Function]bool{}
+		for _, fn := range p.ModFns {
+			pk := core.FuncPkg(fn)
+			if pk == nil || core.RelPkg(pk.Path()) != "node/bindnode" || len(fn.Blocks) == 0 || fn.Synthetic != "" || fn.Parent() != nil || fn.Signature.Recv() != nil {
+				continue
+			}
+			sig := fn.Signature
+			if sig.Results().Len() != 1 || !isString(sig.Results().At(0).Type()) {
+				continue
+			}
+			var key *ssa.Parameter
+			hasType := false
+			for _, prm := range fn.Params {
+				if isString(prm.Type()) {
+					key = prm
+				}
+				if pt, ok := prm.Type().(*types.Pointer); ok {
+					if nt := namedOfType(pt.Elem()); nt != nil && (nt.Obj().Name() == "TypeStruct" || nt.Obj().Name() == "TypeUnion") {
+						hasType = true
+					}
+				}
+			}
+			asksStrategy := false
+			for _, ci := range core.Calls(fn) {
+				if o := core.CalleeObj(ci); o != nil && (o.Name() == "GetFieldKey" || o.Name() == "GetDiscriminant") {
+					asksStrategy = true
+				}
+			}
+			if key == nil || !hasType || !asksStrategy {
+				continue
+			}
+			roleHelper[fn] = true
+			// returns of the key itself
+			var idRets []*ssa.Return
+			for _, ret := range core.Returns(fn) {
+				for _, rv := range core.ResultValues(ret, 0) {
+					if core.Strip(rv) == ssa.Value(key) {
+						idRets = append(idRets, ret)
+					}
+				}
+			}
+			nrk++
+			if len(idRets) == 0 {
+				c.OK(core.FuncKey(fn)+"#no-identity-fallback", p.Pos(fn.Pos()), "the key is never returned unchanged")
+				continue
+			}
+			// edges on which the key was found to be a type-level name: Field(key) != nil, or Name() == key
+			found := core.EdgesWhere(fn, func(r core.Rel) bool {
+				if r.Op == token.NEQ && core.IsNilConst(r.Y) {
+					if cl, ok := core.Strip(r.X).(*ssa.Call); ok && core.CalleeObj(cl) != nil && core.CalleeObj(cl).Name() == "Field" {
+						for _, a := range cl.Call.Args {
+							if core.Strip(a) == ssa.Value(key) {
+								return true
+							}
+						}
+					}
+				}
+				if r.Op == token.EQL {
+					for _, pair := range [][2]ssa.Value{{r.X, r.Y}, {r.Y, r.X}} {
+						if core.Strip(pair[0]) != ssa.Value(key) {
+							continue
+						}
+						if cl, ok := core.Strip(pair[1]).(*ssa.Call); ok && core.CalleeObj(cl) != nil && core.CalleeObj(cl).Name() == "Name" {
+							return true
+						}
+					}
+				}
+				return false
+			})
+			bad := len(found) == 0
+			for _, ret := range idRets {
+				for e := range found {
+					if reachFromBlock(fn, e.To(), func(in ssa.Instruction) bool { return in == ssa.Instruction(ret) }, nil) {
+						bad = true
+					}
+				}
+			}
+			c.Check(!bad, core.FuncKey(fn)+"#no-identity-fallback", p.Pos(idRets[0].Pos()), "the key is returned unchanged only where it is not a type-level name", "the incoming key is handed back unchanged without having been found not to be a type-level field / member name: {\"foo\":1} is accepted for a field foo renamed to \"f\" (and the type name of a union member for a member with another discriminant), input that does not conform to the representation")
+		}
+		// the same mapping written out where it is used (no function of its own): the incoming key is compared with the
+		// strategy's key of every field / discriminant of every member in the body of the caller. There the weaker,
+		// path-insensitive form is decided: if the key itself can still flow on as a name, the function tests somewhere
+		// whether it is a type-level name.
+		for _, fn := range p.ModFns {
+			pk := core.FuncPkg(fn)
+			if pk == nil || core.RelPkg(pk.Path()) != "node/bindnode" || len(fn.Blocks) == 0 || fn.Synthetic != "" || roleHelper[fn] {
+				continue
+			}
+			keys := map[ssa.Value]bool{}
+			core.Instrs(fn, func(in ssa.Instruction) {
+				bo, ok := in.(*ssa.BinOp)
+				if !ok || bo.Op != token.EQL || !isString(bo.X.Type()) {
+					return
+				}
+				for _, pair := range [][2]ssa.Value{{bo.X, bo.Y}, {bo.Y, bo.X}} {
+					if cl, ok := core.Strip(pair[1]).(*ssa.Call); ok && core.CalleeObj(cl) != nil && (core.CalleeObj(cl).Name() == "GetFieldKey" || core.CalleeObj(cl).Name() == "GetDiscriminant") {
+						if _, isC := core.Strip(pair[0]).(*ssa.Const); !isC {
+							keys[core.Strip(pair[0])] = true
+						}
+					}
+				}
+			})
+			nk := 0
+			for key := range keys {
+				isGuard := func(cl ssa.CallInstruction) bool {
+					o := core.CalleeObj(cl)
+					return o != nil && (o.Name() == "Field" || o.Name() == "GetFieldKey" || o.Name() == "GetDiscriminant")
+				}
+				flowsOn := false
+				for _, ci := range core.Calls(fn) {
+					if isGuard(ci) {
+						continue
+					}
+					if o := core.CalleeObj(ci); o != nil && o.Pkg() != nil && (o.Pkg().Path() == "fmt" || o.Pkg().Path() == "errors") {
+						continue
+					}
+					for _, a := range ci.Common().Args {
+						if isString(a.Type()) && core.BackSlice(a, core.SliceOpts{Local: true})[key] {
+							flowsOn = true
+						}
+					}
+				}
+				if !flowsOn {
+					continue
+				}
+				nk++
+				nrk++
+				tested := false
+				core.Instrs(fn, func(in ssa.Instruction) {
+					switch x := in.(type) {
+					case *ssa.Call:
+						if o := core.CalleeObj(x); o != nil && o.Name() == "Field" {
+							for _, a := range x.Call.Args {
+								if core.Strip(a) == key {
+									tested = true
+								}
+							}
+						}
+					case *ssa.BinOp:
+						if x.Op == token.EQL || x.Op == token.NEQ {
+							for _, pair := range [][2]ssa.Value{{x.X, x.Y}, {x.Y, x.X}} {
+								if core.Strip(pair[0]) == key {
+									if cl, ok := core.Strip(pair[1]).(*ssa.Call); ok && core.CalleeObj(cl) != nil && core.CalleeObj(cl).Name() == "Name" {
+										tested = true
+									}
+								}
+							}
+						}
+					}
+				})
+				c.Check(tested, fmt.Sprintf("%s#inline-reverse-mapping/%d#type-level-name-tested", core.FuncKey(fn), nk), p.Pos(fn.Pos()), "the key is tested for being a type-level name where it can flow on unchanged", "the incoming key is compared with the representation keys and can flow on unchanged as a name, but is nowhere tested for being the type-level name of a field / member: input that uses the type-level name of a renamed field is accepted although it does not conform")
+			}
+		}
+		if nrk == 0 {
+			c.Undecided("node/bindnode#reverse-key-mapping", "-", "no reverse key mapping found")
+		}
+	}
+
+	c.Rule("C09.assignnodechecked", "assigning a whole node takes the checked route: the AssignNode methods of bindnode's slot assemblers (type level and representation level) never write the Go value of the slot in their own body (no reflect.Value.Set*): every value goes through the kind-specific assign / begin methods - directly or by way of datamodel.Copy - which carry the schema's checks (kind, nullability, enum members, repeated keys, required fields) and the finish hook; a shortcut that stores the node or copies the source's Go value accepts what the assemblers would refuse", 2)
+	{
+		nan := 0
+		for _, tn := range []string{"_assembler", "_assemblerRepr"} {
+			nt := p.NamedType("node/bindnode", tn)
+			if nt == nil {
+				continue
+			}
+			fn := p.Method(types.NewPointer(nt), "AssignNode")
+			if fn == nil || len(fn.Blocks) == 0 {
+				continue
+			}
+			nan++
+			bad := ""
+			var pos token.Pos = fn.Pos()
+			for _, ci := range core.Calls(fn) {
+				o := core.CalleeObj(ci)
+				if o != nil && strings.HasPrefix(o.Name(), "Set") && core.IsMethod(ci, "reflect", "Value", o.Name()) {
+					bad = "reflect.Value." + o.Name()
+					pos = ci.Pos()
+				}
+			}
+			c.Check(bad == "", core.FuncKey(fn)+"#no-direct-slot-write", p.Pos(pos), "AssignNode delegates to the checked assign methods", "AssignNode writes the slot itself ("+bad+") instead of going through the kind-specific assign methods or datamodel.Copy: the node (or the source's Go value) is accepted without the schema's checks - a null in a non-nullable position, a wrapped value with a repeated key - and without the finish hook")
+		}
+		if nan == 0 {
+			c.Undecided("node/bindnode#AssignNode", "-", "the slot assemblers' AssignNode methods were not found")
 		}
 	}
 
